@@ -1,4 +1,4 @@
-SPECIFICATION Spec
+SPECIFICATION GSpec
 CONSTANTS
   Params <- GenParams
   Vals <- ValsA
